@@ -192,8 +192,12 @@ class SimpleLoop(Loop[World]):
 
         See :meth:`Loop.start` for more details.
         """
-        super().start()
-        self.last_timestamp = None
+        try:
+            super().start()
+        finally:
+            # Reset even if an exception propagates, so that the next
+            # start() begins again with a delta time of 0
+            self.last_timestamp = None
 
     def loop(self):
         """Simple main loop.
